@@ -272,7 +272,14 @@ class Resolver:
                     args.append(("star", self.term(a.value, node)))
                 else:
                     args.append(self.term(a, node))
-            kwargs = tuple(sorted(((k.arg or "**"), self.term(k.value, node)) for k in e.keywords))
+            kw = []
+            for k in e.keywords:
+                v = self.term(k.value, node)
+                if k.arg is None and v[0] == "dict" and all(kk[0] == "const" and isinstance(kk[1], str) for kk, _ in v[1]):
+                    kw += [(kk[1], vv) for kk, vv in v[1]]  # f(**{"a": x}) is f(a=x)
+                else:
+                    kw.append((k.arg or "**", v))
+            kwargs = tuple(sorted(kw))
             if kwargs:
                 args, kwargs = self._positional(func, args, kwargs)
             return ("call", func, tuple(args), kwargs)
@@ -316,6 +323,16 @@ class Resolver:
                 elif isinstance(v, ast.Constant):
                     parts.append(("const", v.value))
             return ("fstr", tuple(parts))
+        if isinstance(e, (ast.ListComp, ast.GeneratorExp)) and len(e.generators) == 1 and isinstance(e.elt, ast.Name) \
+                and isinstance(e.generators[0].target, ast.Name) and e.elt.id == e.generators[0].target.id and not e.generators[0].is_async:
+            # (v for v in X if C): a selection of the elements of X, in the order of X
+            g = e.generators[0]
+            base = self.term(g.iter, node)
+            if not g.ifs:
+                return ("call", ("global", "list"), (base,), ())
+            import ast as _ast
+
+            return ("filtered", base, " and ".join(_ast.unparse(c) for c in g.ifs))
         if isinstance(e, (ast.ListComp, ast.SetComp, ast.DictComp, ast.GeneratorExp, ast.Lambda, ast.FormattedValue)):
             from .cfg import name_uses
 
@@ -492,6 +509,8 @@ def show(t: Any, depth: int = 0) -> str:
         return "{" + ", ".join(f"{show(a, depth + 1)}: {show(b, depth + 1)}" for a, b in t[1]) + "}"
     if k == "elem":
         return f"elem<{show(t[1], depth + 1)}>"
+    if k == "filtered":
+        return f"filtered<{show(t[1], depth + 1)} if {t[2]}>"
     if k == "index":
         return f"index<{show(t[1], depth + 1)}>"
     if k == "unpack":
